@@ -33,13 +33,18 @@ for the condition wait:
                           loading = loading.getLoading() } }        otherwise → walk d (loading c)
    m.m.Lock(); defer m.m.Unlock(); for !m.loaded { Wait }  wlock d → sleep d | unset
 ```
+A module whose environment cannot be set up (`P.broken`: `m.env` fails in `module.load`, e.g. the module's project is not in
+the build list) executes nothing. *As written* `load` then returns the error without `m.done(…)` — the module stays in
+the registry with `loaded = false` and later loaders wait for it for ever (D17); *fixed*, the error goes through
+`m.done(nil, err)`: `run` on a broken top frame → `fin err`.
+
 Critical sections that contain no blocking operation are one atomic step. `mlock m` is `m.m` (a non-reentrant
 `sync.Mutex`): an operation that locks `m.m` is enabled only while nobody — the thread itself included — holds it.
 In the fixed version no step leaves a mutex held.
 
 Ghost state: `execs m` (number of `ModuleLoading` events = executions of the file), a publish clock (`ptime x` = when
-`x.loading` was last set) and a completion clock (`ftime`). Modules fail only through a cyclic-dependency verdict
-(`Res.cyc`), which propagates to every waiter, as the Starlark `load` error does.
+`x.loading` was last set) and a completion clock (`ftime`). Modules fail through a cyclic-dependency verdict (`Res.cyc`) or because their environment cannot be set up
+(`Res.err`); either error propagates to every waiter and up the loading chain, as the Starlark `load` error does.
 Core Lean only.
 -/
 namespace Dawn.Loader
@@ -54,12 +59,15 @@ deriving DecidableEq, Repr
 
 inductive Res where
   | ok
-  | cyc
+  | cyc            -- the cyclic-dependency error of `module.wait`
+  | err            -- the module's environment could not be set up (e.g. its project is not in the build list)
 deriving DecidableEq, Repr
 
 structure Project where
   loads : Mod → List Mod
   roots : List Mod
+  /-- modules whose environment cannot be set up: `m.env` fails in `module.load` before anything is executed -/
+  broken : Mod → Bool := fun _ => false
 
 structure Frame where
   mod : Mod
@@ -94,6 +102,9 @@ def walkFirst : Version → String
 def walkNext : Version → String
   | .asWritten => "receiver.getLoading"     -- `loading = m.getLoading()`: re-locks m.m, which `wait` holds (D4)
   | .fixed => "loading.getLoading"          -- `loading = loading.getLoading()`
+def envErrorPath : Version → String
+  | .asWritten => "plain"                   -- `return nil, err` without `m.done(…)` (D17)
+  | .fixed => "done"                        -- `return m.done(nil, err)`
 def doneShape : List String :=
   ["set R.data,R.err", "R.m.Lock", "set R.loaded", "R.m.Unlock", "R.cond.Broadcast", "return"]
 
@@ -106,7 +117,7 @@ structure State where
   registry : Mod → Bool            -- proj.modules
   loading : Mod → Option Mod       -- m.loading
   loaded : Mod → Bool              -- m.loaded
-  failed : Mod → Bool              -- m.err != nil (meaningful once loaded)
+  result : Mod → Res               -- m.err (meaningful once loaded)
   mlock : Mod → Option Tid         -- holder of m.m across steps (as written only)
   stack : Tid → List Frame
   pc : Tid → PC
@@ -117,7 +128,7 @@ structure State where
   ftime : Mod → Nat
 
 def init (P : Project) : State :=
-  { registry := fun _ => false, loading := fun _ => none, loaded := fun _ => false, failed := fun _ => false,
+  { registry := fun _ => false, loading := fun _ => none, loaded := fun _ => false, result := fun _ => .ok,
     mlock := fun _ => none, stack := fun _ => [],
     pc := fun t => match P.roots[t]? with | some r => .call r | none => .finished,
     execs := fun _ => 0, clock := 0, ptime := fun _ => 0, ftime := fun _ => 0 }
@@ -125,7 +136,10 @@ def init (P : Project) : State :=
 /-- the module whose body the thread is executing: the `waiter` of its loadModule calls (`nil` for the goroutine itself) -/
 def top (s : State) (t : Tid) : Option Mod := (s.stack t).head?.map Frame.mod
 
-def resOf (s : State) (d : Mod) : Res := if s.failed d then .cyc else .ok
+def resOf (s : State) (d : Mod) : Res := s.result d
+
+/-- the module finished loading with an error -/
+def failed (s : State) (m : Mod) : Bool := s.result m != .ok
 
 /-- `x.setLoading(some d)`: publish -/
 def publish (s : State) (x d : Mod) : State :=
@@ -140,7 +154,13 @@ def next (v : Version) (P : Project) (s : State) (t : Tid) : Option State :=
   | .run =>
     match s.stack t with
     | [] => none
-    | f :: _ =>
+    | f :: rest =>
+      if P.broken f.mod then
+        -- `t, builtins, err := m.env(proj); if err != nil { … }`
+        match v with
+        | .asWritten => some { s with stack := upd s.stack t rest, pc := upd s.pc t (.unset .err) }  -- `return nil, err`: no done() (D17)
+        | .fixed => some (setPc s t (.fin .err))                                                      -- `return m.done(nil, err)`
+      else
       match f.todo with
       | [] => some (setPc s t (.fin .ok))
       | d :: _ => some (setPc s t (.call d))
@@ -200,15 +220,14 @@ def next (v : Version) (P : Project) (s : State) (t : Tid) : Option State :=
       if (s.mlock f.mod).isSome then none
       else
         let s1 := { s with loading := upd s.loading f.mod none }
-        match r with
-        | .ok => some { s1 with stack := upd s.stack t (⟨f.mod, f.todo.tail⟩ :: rest), pc := upd s.pc t .run }
-        | .cyc => some (setPc s1 t (.fin .cyc))
+        if r = .ok then some { s1 with stack := upd s.stack t (⟨f.mod, f.todo.tail⟩ :: rest), pc := upd s.pc t .run }
+        else some (setPc s1 t (.fin r))
   | .fin r =>
     match s.stack t with
     | [] => none
     | f :: rest =>
       if (s.mlock f.mod).isSome then none
-      else some { s with loaded := upd s.loaded f.mod true, failed := upd s.failed f.mod (r == .cyc),
+      else some { s with loaded := upd s.loaded f.mod true, result := upd s.result f.mod r,
                          ftime := upd s.ftime f.mod s.clock, clock := s.clock + 1,
                          stack := upd s.stack t rest, pc := upd s.pc t (.unset r) }
 
